@@ -575,3 +575,62 @@ func runSXHash(c *load.Ctx, r *report.RuleResult) {
 		}
 	}
 }
+
+// --- a note begins with its first byte -------------------------------------------------------------------
+
+func init() {
+	register(&Rule{ID: "SX-notebegin-schema", Min: 2, Doc: "scanner schema: the note of an annotation without rules begins with its first byte: in every reachable abstract state whose step function is the state right after `//` or `/*` (stateInlineAnnotation, stateMultiLineAnnotation), every byte other than a blank, a line break, `{` (the rules) and — after `/*` — `*` is accepted and opens the note text with an event that begins at that very byte; a byte that is swallowed as a separator (`// -1 means unlimited`) is missing from the note the AST shows",
+		Run: func(c *load.Ctx, r *report.RuleResult) { runSXNoteBegin(c, r) }})
+}
+
+func runSXNoteBegin(c *load.Ctx, r *report.RuleResult) {
+	sp := scannerSpecs["schema"]
+	g := exploreScanner(c, "schema", sp)
+	if g.err != nil {
+		r.Unk("anchor|"+sp.rel, "", g.err.Error())
+		return
+	}
+	want := map[string]string{"stateInlineAnnotation": "InlineAnnotationTextBegin", "stateMultiLineAnnotation": "MultiLineAnnotationTextBegin"}
+	count := map[string]int{}
+	bad := map[string]bool{}
+	for _, e := range g.edges {
+		full := implStepName(g.m, e.from.st)
+		step := baseStepName(full)
+		ev, ok := want[step]
+		if !ok || isClosureStep(full) || len(e.from.pending) != 0 {
+			continue
+		}
+		b := e.input
+		if b == ' ' || b == '\t' || b == '\n' || b == '\r' || b == '{' || (step == "stateMultiLineAnnotation" && b == '*') {
+			continue
+		}
+		if e.res.Kind == "crash" || e.res.Kind == "undecided" {
+			continue
+		}
+		key := "notebegin|impl=" + step
+		count[key]++
+		if bad[key] {
+			continue
+		}
+		found := false
+		for _, x := range e.res.Events {
+			if x.Type == ev {
+				if off, ok := relToLast(x.Begin); ok && off == 0 {
+					found = true
+				}
+			}
+		}
+		if e.res.Kind != "ok" || !found {
+			bad[key] = true
+			r.Bad(key, c.Pos(g.m.next.Pos()), fmt.Sprintf("after %q the byte %q does not open the note text at itself: %s, events %s", e.from.path, string([]byte{byte(b)}), e.res.Kind, evsString(e.res.Events)))
+		}
+	}
+	for _, k := range []string{"notebegin|impl=stateInlineAnnotation", "notebegin|impl=stateMultiLineAnnotation"} {
+		switch {
+		case count[k] == 0:
+			r.Unk(k, "", "state not reached")
+		case !bad[k]:
+			r.OK(k, "", fmt.Sprintf("%d transition(s): the byte opens the note", count[k]))
+		}
+	}
+}
